@@ -147,14 +147,17 @@ def worker_lsp(args):
 
 # ------------------------------------------------------------------------------------------------ witnesses outside the deciding sub-space
 def replay_witnesses(ctx):
+    """divergences outside the deciding sub-space: concrete committed witnesses, each replayed on every run"""
     ad = Adaptor()
     for f in ctx.open_findings():
         wpath = os.path.join(VERIF, f["witness"])
         with open(wpath) as fh: w = json.load(fh)
-        res = ad.call(op="history", text=w["text"], steps=w["steps"])
-        ctx.count()
-        still = bool(res.get("div") or res.get("update_panic"))
-        if still: ctx.known(f["id"], f["what"])
+        still = 0
+        for sc in w["scenarios"]:
+            res = ad.call(op="history", text=sc["text"], steps=sc["steps"])
+            ctx.count()
+            if res.get("div") or res.get("update_panic"): still += 1
+        if still: ctx.known(f["id"], "%s [%d of %d witnesses still diverge]" % (f["what"], still, len(w["scenarios"])))
         else: ctx.extra.setdefault("witnesses_no_longer_failing", []).append(f["id"])
     ad.close()
 
